@@ -52,7 +52,8 @@ CrossStep(e) ==
   CASE e.op = "fmt.append" -> Note(AppendDemands(e))
     [] e.op = "recv.call"  -> Note(RecvDemands(e))
     [] e.op = "twin"       -> Note(TwinDemands(e))
+    [] e.op = "twin2"      -> Note(TwinDemands(e))         \* oks/vals = <<string, bytes from the refilled buffer>>
     [] e.op = "sem.cmpraw" -> Note(CmpRawDemands(e))
 
-IsCrossOp(e) == e.op \in {"fmt.append", "recv.call", "twin", "sem.cmpraw"}
+IsCrossOp(e) == e.op \in {"fmt.append", "recv.call", "twin", "twin2", "sem.cmpraw"}
 =============================================================================
